@@ -191,8 +191,14 @@ func H_SetPathData() {
 			if n == 7 && (j == 3 || j == 4) {
 				f = 0
 			}
+			// compact notation: a number that starts with a dot directly after a number
+			// that already has one ("1.5.25" is 1.5 then .25), no separator in between
+			compact := j == 1 && form >= 2 && vp.Choice("compact", 2) == 1
+			if compact {
+				f = 3
+			}
 			t, v := num(f)
-			if j > 0 {
+			if j > 0 && !compact {
 				d += ","
 			}
 			d += t
@@ -291,8 +297,16 @@ func H_ParsePathData() {
 			if j == 0 {
 				f = form
 			}
-			t, v := num(f)
-			if j > 0 {
+			// compact notation: ".d" directly after "d.d" (two numbers, no separator)
+			compact := j == 1 && form == 2 && vp.Choice("compact", 2) == 1
+			var t string
+			var v float32
+			if compact {
+				t, v = num(3)
+			} else {
+				t, v = num(f)
+			}
+			if j > 0 && !compact {
 				d += " "
 			}
 			d += t
